@@ -42,6 +42,17 @@ func setStr(have map[string]bool, full map[string]bool) string {
 	if all {
 		return "any"
 	}
+	// the shorter of the list and its complement
+	var missing []string
+	for k := range full {
+		if !have[k] {
+			missing = append(missing, k)
+		}
+	}
+	sort.Strings(missing)
+	if len(full) > 1 && len(missing) > 0 && len(missing) < len(l) {
+		return "all-but(" + strings.Join(missing, "+") + ")"
+	}
 	return strings.Join(l, "+")
 }
 
